@@ -1,6 +1,7 @@
 import Thanos.Model.ReadPath
 import Thanos.Lemmas.ReadPath
 import Thanos.Lemmas.FirstFit
+import Thanos.Lemmas.TrackM
 import Thanos.Generated.Facts
 /-
   C04 — Deduplicated queries return each logical series once with replica data.
@@ -97,10 +98,11 @@ example : drain (csIt [⟨10, 1⟩, ⟨20, 2⟩, ⟨30, 3⟩] [[⟨20, 2⟩, ⟨
     = [⟨10, 1⟩, ⟨20, 2⟩, ⟨30, 3⟩, ⟨40, 4⟩, ⟨50, 5⟩] := by decide
 
 /-- `mapM` over rows that all succeed, keeping what each result is good for -/
-theorem mapM_rows {f : List RChunk → Option AnyIt} {g : List RChunk → List Sample} :
-    ∀ (rows : List (List RChunk)), (∀ row ∈ rows, ∃ it, f row = some it ∧ GoodN it (g row)) →
+theorem mapM_rows {f : List RChunk → Option AnyIt} {g : List RChunk → List Sample}
+    {G : AnyIt → List Sample → Prop} :
+    ∀ (rows : List (List RChunk)), (∀ row ∈ rows, ∃ it, f row = some it ∧ G it (g row)) →
     ∃ ps : List (AnyIt × List Sample), rows.mapM f = some (ps.map (·.1)) ∧ ps.map (·.2) = rows.map g ∧
-      ps.length = rows.length ∧ ∀ p ∈ ps, GoodN p.1 p.2 := by
+      ps.length = rows.length ∧ ∀ p ∈ ps, G p.1 p.2 := by
   intro rows
   induction rows with
   | nil => intro _; exact ⟨[], rfl, rfl, rfl, by simp⟩
@@ -167,6 +169,58 @@ theorem C04_select_refines (l : RSeries) (qmint qmaxt : Int)
     exact hne (List.Perm.eq_nil (hperm.symm))
   obtain ⟨it, hit, hg⟩ := foldIts_good ps hpsne h4
   simp only [h1, hit, drainChecked_goodN hg, h2]
+
+/-- **The querier side for ANY query range.**  Read with `Next`, the deduplicated series is the
+    pure penalty merge of the rows' windows `takeLe qmaxt (dropLt qmint (union of the row))`,
+    followed only by samples beyond `qmaxt` (the leak of `boundedSeriesIterator.Seek`).  No
+    panic, no sample lost to loop fuel. -/
+theorem C04_select_refines_anyrange (l : RSeries) (qmint qmaxt : Int) (hM : minT ≤ qmaxt)
+    (hne : proxyChunks qmint qmaxt (l.reps.flatMap (·.chunks)) ≠ [])
+    (hok : ∀ c ∈ proxyChunks qmint qmaxt (l.reps.flatMap (·.chunks)), ChunkOK c.samples ∧ SSorted c.samples) :
+    ∃ extra, selectDedup true qmint qmaxt l = some (some (pmFoldL
+      ((overlapSplit (proxyChunks qmint qmaxt (l.reps.flatMap (·.chunks)))).map
+        fun row => rowWindow qmint qmaxt (row.map (·.samples))) ++ extra)) ∧ ∀ x ∈ extra, qmaxt < x.t := by
+  unfold selectDedup
+  generalize hcs : proxyChunks qmint qmaxt (l.reps.flatMap (·.chunks)) = cs at hne hok
+  have hemp : cs.isEmpty = false := by
+    cases cs with
+    | nil => exact absurd rfl hne
+    | cons _ _ => rfl
+  simp only [hemp, Bool.false_eq_true, if_false]
+  obtain ⟨hrows, hperm⟩ := overlapSplit_partition cs
+  have hrow : ∀ row ∈ overlapSplit cs, ∃ it,
+      chunkSeriesIt qmint qmaxt (row.map (·.samples)) = some it ∧
+      GoodD it qmaxt (rowWindow qmint qmaxt (row.map (·.samples))) := by
+    intro row hr
+    obtain ⟨_, hrne⟩ := hrows row hr
+    have hmem : ∀ c ∈ row, c ∈ cs := fun c hc =>
+      hperm.subset (List.mem_flatten.mpr ⟨row, hr, hc⟩)
+    cases row with
+    | nil => exact absurd rfl hrne
+    | cons c row' =>
+      simp only [List.map_cons]
+      apply row_goodD
+      · exact (hok c (hmem c (by simp))).1
+      · intro d hd
+        obtain ⟨c', hc', rfl⟩ := List.mem_map.mp hd
+        exact (hok c' (hmem c' (by simp [hc']))).1
+      · intro d hd
+        rcases List.mem_cons.mp hd with rfl | hd
+        · exact (hok c (hmem c (by simp))).2
+        · obtain ⟨c', hc', rfl⟩ := List.mem_map.mp hd
+          exact (hok c' (hmem c' (by simp [hc']))).2
+  obtain ⟨ps, h1, h2, h3, h4⟩ := mapM_rows (f := fun row => chunkSeriesIt qmint qmaxt (row.map (·.samples)))
+    (g := fun row => rowWindow qmint qmaxt (row.map (·.samples))) (G := fun it L => GoodD it qmaxt L)
+    (overlapSplit cs) hrow
+  have hpsne : ps ≠ [] := by
+    intro he
+    rw [he] at h3
+    have : overlapSplit cs = [] := List.length_eq_zero_iff.mp h3.symm
+    rw [this] at hperm
+    exact hne (List.Perm.eq_nil (hperm.symm))
+  obtain ⟨it, hit, ⟨_, extra, hdr, hex⟩⟩ := foldIts_goodD hM ps hpsne h4
+  refine ⟨extra, ?_, hex⟩
+  simp only [h1, hit, hdr, h2]
 
 /-! ### the partial property for a query range that covers the series -/
 
